@@ -39,34 +39,71 @@ def reference_gates():
     }
 
 
-def gate_literal(ctx, ci: ClassInfo):
-    """Fold the matrix a single-qubit gate class hands to Unitary.__init__."""
-    from ..inline import inl
-    ini = ci.methods.get("__init__")
-    if ini is None:
+class ParamRebound(NotFoldable):
+    """the angle parameter is re-bound before the matrix is built"""
+
+
+def gate_literal(ctx, ci: ClassInfo, arg_values=None, _depth=0):
+    """Fold the matrix a single-qubit gate class hands to Unitary.__init__.  Helpers of the gate module are expanded,
+    module-level constant tables are available, and `<Gate>(expr).U` folds the literal of that gate at `expr`."""
+    from ..inline import with_helpers
+    ini0 = ci.methods.get("__init__")
+    if ini0 is None:
         raise AnalysisError(f"{ci.name}.__init__ not found")
-    ini = inl(ini)
+    ini = with_helpers(ctx, ini0, only_private=True)
     sup = [c for c in walk_no_nested(ini.node) if isinstance(c, ast.Call) and src(c.func) == "super().__init__"]
     if not sup or not sup[0].args:
         raise AnalysisError(f"{ci.name}: super().__init__(unitary, label) not found")
     arg = sup[0].args[0]
-    params = [p for p in ini.params()[1:]]
+    params = [p for p in ini0.params()[1:]]
     env_nodes = {}
     for a in walk_no_nested(ini.node):
         if isinstance(a, ast.Assign) and len(a.targets) == 1 and isinstance(a.targets[0], ast.Name):
             env_nodes.setdefault(a.targets[0].id, []).append(a.value)
-    fd = Folder(angle_names=tuple(params))
+    for p_ in params:
+        if p_ in env_nodes:
+            v_ = env_nodes[p_][0]
+            fname_ = src(v_.func).split(".")[-1] if isinstance(v_, ast.Call) else ""
+            if len(env_nodes[p_]) == 1 and fname_ in ("float", "float64", "asarray", "array") and len(v_.args) == 1 and src(v_.args[0]) == p_:
+                del env_nodes[p_]  # a type conversion of the same value
+            elif fname_ in ("round", "int", "floor", "ceil", "trunc", "rint", "around"):
+                raise ParamRebound(f"parameter `{p_}` is re-bound to `{src(v_)[:40]}` before the matrix is built")
+            else:
+                raise NotFoldable(f"parameter `{p_}` is re-bound to `{src(v_)[:40]}`")
+    mod = ci.module
+
+    class GateFolder(Folder):
+        def f_Attribute(self, e):
+            if e.attr in ("U", "U_full") and isinstance(e.value, ast.Call) and isinstance(e.value.func, ast.Name) and e.value.func.id in mod.classes and _depth < 2:
+                inner = mod.classes[e.value.func.id]
+                vals = [self.fold(x) for x in e.value.args]
+                return gate_literal(ctx, inner, vals, _depth + 1)[0]
+            return super().f_Attribute(e)
+
+    fd = GateFolder(angle_names=tuple(params) if arg_values is None else ())
+    if arg_values is not None:
+        for p_, v_ in zip(params, arg_values):
+            fd.env[p_] = v_
+    # module-level constant tables (e.g. a dictionary of generator matrices)
+    plain = Folder(angle_names=())
+    for name, vals in mod.assigns.items():
+        if len(vals) == 1:
+            try:
+                fd.env.setdefault(name, plain.fold(vals[0]))
+            except (NotFoldable, ValueError, ZeroDivisionError, AttributeError, TypeError):
+                pass
     expr = arg
     for _ in range(4):
         if isinstance(expr, ast.Name) and expr.id in env_nodes:
             if len(env_nodes[expr.id]) != 1:
                 raise NotFoldable(f"{expr.id} assigned more than once")
             expr = env_nodes[expr.id][0]
-    # fold helper locals first
-    for name, vals in env_nodes.items():
-        if len(vals) == 1 and vals[0] is not expr:
+    # fold helper locals first (in source order)
+    for a in sorted([x for x in walk_no_nested(ini.node) if isinstance(x, ast.Assign) and len(x.targets) == 1 and isinstance(x.targets[0], ast.Name)], key=lambda x: (x.lineno, x.col_offset)):
+        name = a.targets[0].id
+        if len(env_nodes[name]) == 1 and a.value is not expr:
             try:
-                fd.env[name] = fd.fold(vals[0])
+                fd.env[name] = fd.fold(a.value)
             except NotFoldable:
                 pass
     return fd.fold(expr), sup[0]
@@ -84,6 +121,9 @@ def single_qubit_gates(ctx, res, names=None) -> dict:
         from ..fold import SignLost
         try:
             m, node = gate_literal(ctx, ci)
+        except ParamRebound as e:
+            res.bad("K-gate-literal", name, f"{SQ}:{ci.node.lineno}", f"{name}.__init__", f"{e}: the gate implements {name} of the modified angle, not of the angle it was given (its label may still show the original)", construct=f"{name} parameter")
+            continue
         except SignLost as e:
             res.bad("K-gate-literal", name, f"{SQ}:{ci.node.lineno}", f"{name}.__init__",
                     f"the matrix literal of {name} contains {e}: that is |cos| / |sin| of the half angle, so the signs of the entries are lost for angles beyond pi and the matrix is not proportional to {name}(theta) for every angle", construct=f"{name} literal")
